@@ -10,6 +10,7 @@ package harness
 import (
 	"fmt"
 	"sort"
+	"strings"
 	"time"
 
 	coercion "github.com/element-of-surprise/coercion"
@@ -364,6 +365,54 @@ func checkRecovery(r *Result, rr *recordedRun, ps *PlanSpec, cut []writeRec, rc 
 			}
 		}
 	}
+	// C03 across a restart: sequences that durably failed still count; once the threshold is exceeded
+	// nothing new is started in that block
+	for bi, b := range ps.Blocks {
+		if b.Tol < 0 {
+			continue
+		}
+		df := 0
+		for _, q := range ix.seqsOf(bi) {
+			if d[q].Status == "failed" {
+				df++
+			}
+		}
+		if df > b.Tol {
+			for _, q := range ix.seqsOf(bi) {
+				if d[q].Status != "running" && v.firstWrite(q, "running") != 0 {
+					fail("C03.recovery_no_start_after_threshold", map[string]any{"durablyFailed": df, "tol": b.Tol},
+						"after a restart a sequence was started in a block whose durably failed sequences already exceeded the tolerance")
+					break
+				}
+			}
+		}
+	}
+	// C06 across a restart: plan-level pre-checks (and the initial cont run) are run again by the
+	// recovering process and must pass before any sequence action is invoked
+	var firstSeqEnter int64
+	for i, o := range ix.Objs {
+		if o.Kind == "action" && !o.Check && len(v.enters[i]) > 0 {
+			if n := v.enters[i][0].N; firstSeqEnter == 0 || n < firstSeqEnter {
+				firstSeqEnter = n
+			}
+		}
+	}
+	if firstSeqEnter != 0 {
+		for _, gk := range []string{"pre", "cont"} {
+			g := ix.group(-1, gk)
+			if g < 0 || (gk == "cont" && ix.group(-1, "pre") < 0) {
+				continue
+			}
+			if d[g].Status == "completed" {
+				continue // the gate had durably passed before the crash (fixBlock may finish in-flight sequences at once)
+			}
+			w := v.firstWrite(g, "completed")
+			if w == 0 || w > firstSeqEnter {
+				fail("C06.recovery_prechecks_gate_sequences", map[string]any{"group": gk, "durable": d[g].Status},
+					"after a restart a sequence action was invoked although the plan's "+gk+" checks had not passed in the recovering process")
+			}
+		}
+	}
 	// C10: consistent terminal state
 	p := res.Final
 	if p.Status != "completed" && p.Status != "failed" {
@@ -491,6 +540,9 @@ func crashCampaign(prop string, r *Result, quick, thorough int, double bool) {
 			if i%3 == 0 {
 				g.ContMode = "pass"
 			}
+			if i%3 == 1 {
+				g.ContMode, g.PGroup = "fail0", 0.5 // continuous checks whose (initial) run fails
+			}
 			ps := g.plan()
 			if i < 0 {
 				// stored witness of known finding D21: a failing block, plan-level DeferredChecks; every cut is replayed
@@ -543,7 +595,13 @@ func crashCampaign(prop string, r *Result, quick, thorough int, double bool) {
 	})
 	var keep []Finding
 	for _, f := range r.Findings {
-		if len(f.Clause) >= 3 && f.Clause[:3] == prop {
+		own := len(f.Clause) >= 3 && f.Clause[:3] == prop
+		for _, p := range propClauses[prop] {
+			if strings.HasPrefix(f.Clause, p) {
+				own = true
+			}
+		}
+		if own {
 			keep = append(keep, f)
 		} else {
 			r.Distribution["other-property-finding:"+f.Clause]++
